@@ -835,6 +835,8 @@ func (w *world) concretise(r req) concrete {
 	switch r.Hdr {
 	case "own":
 		c.Header = litefs.FormatNodeID(w.target.Store.ID())
+	case "ownalt":
+		c.Header = "0" + strings.ToLower(litefs.FormatNodeID(w.target.Store.ID()))
 	case "foreign":
 		c.Header = litefs.FormatNodeID(w.p.Foreign)
 	}
